@@ -26,6 +26,8 @@ def src(e):
             return "(%d)" % v["v"] if v["v"] < 0 else "%d" % v["v"]
         if v["t"] == "bool":
             return "True" if v["v"] else "False"
+        if v["t"] == "flt":
+            return "(%r)" % (v["v"] / 4.0)
         return repr(v["v"])
     if k == "bin":
         return "(%s %s %s)" % (src(e["l"]), e["op"], src(e["r"]))
@@ -59,7 +61,7 @@ def pyval(v):
     if t == "str":
         return v["v"]
     if t == "flt":
-        return float(v["v"])
+        return v["v"] / 4.0
     if t == "list":
         return [pyval(x) for x in v["v"]]
     if t == "tuple":
